@@ -18,6 +18,7 @@ import (
 	"github.com/thought-machine/please/src/cli"
 	"github.com/thought-machine/please/src/core"
 	"github.com/thought-machine/please/src/fs"
+	"github.com/thought-machine/please/src/verifhook"
 )
 
 type httpCache struct {
@@ -118,6 +119,9 @@ func storeFile(tw *tar.Writer, name string) error {
 		return err
 	} else if info.IsDir() || target != "" {
 		return nil // nothing to write
+	}
+	if err := verifhook.Fault("cache.storeFile.open"); err != nil {
+		return err
 	}
 	f, err := os.Open(name)
 	if err != nil {
